@@ -889,7 +889,7 @@ Lemma apply_load_cases e p p5 walk : apply_load g loads e p = Ok (p5, walk) ->
              chk_closed g p5 = true /\ chk_sched g p5 = true /\ chk_oclosed g p5 = true /\
              chk_walk g p p5 walk = true).
 Proof.
-  unfold apply_load. destruct (bound g p e) as [|b bs] eqn:Eb.
+  unfold apply_load, apply_load_gen. destruct (bound g p e) as [|b bs] eqn:Eb.
   - intros H. injection H as <- <-. left. repeat split.
   - destruct (loads e) as [L|]; [|discriminate].
     set (p1 := set_loaded p _).
@@ -897,6 +897,7 @@ Proof.
     destruct (fold_opt (op_ready g) (ld_ready L) p2) as [p3|] eqn:E3; [|discriminate].
     set (p4 := Nat.iter _ _ p3).
     destruct (fold_opt (op_add g) (ld_added L) p4) as [p5'|] eqn:E5; [|discriminate].
+    cbn [negb orb].
     destruct (chk_evol g L p p5' && chk_closed g p5' && chk_sched g p5' && chk_oclosed g p5'
               && chk_walk g p p5' (ld_walk L)) eqn:Ec; [|discriminate].
     intros H. injection H as <- <-. right. split; [discriminate|].
@@ -1961,7 +1962,7 @@ Proof. unfold in_build. destruct (s_phase s); [reflexivity|discriminate|discrimi
 Lemma core_start s e prio s' : core s ->
   step_res g cfg loads s (EvStart e prio) = Ok s' -> core s' /\ s_phase s' = PhBuild.
 Proof.
-  intros C Hst. cbn [step_res] in Hst.
+  intros C Hst. unfold step_res in Hst; cbn [step_res_gen] in Hst.
   destruct (in_build s && negb (s_waiting s) && more_to_do (s_plan s) && (0 <? s_fa s)
             && (0 <? capacity cfg s) && memb e (p_ready (s_plan s)) && token_ok cfg (s_plan s)) eqn:G;
     [|discriminate].
@@ -2015,7 +2016,7 @@ Qed.
 
 Lemma core_wait s s' : core s -> step_res g cfg loads s EvWait = Ok s' -> core s' /\ s_phase s' = PhBuild.
 Proof.
-  intros C Hst. cbn [step_res] in Hst.
+  intros C Hst. unfold step_res in Hst; cbn [step_res_gen] in Hst.
   destruct (in_build s && negb (s_waiting s) && more_to_do (s_plan s) && (0 <? s_pending s)
             && negb (can_start cfg s)) eqn:G; [|discriminate].
   peel G Gcs. peel G G1. peel G Gmore. peel G Gnw.
@@ -2028,7 +2029,7 @@ Qed.
 
 Lemma core_prune s e s' : core s -> step_res g cfg loads s (EvPrune e) = Ok s' -> core s' /\ s_phase s' = PhBuild.
 Proof.
-  intros C Hst. cbn [step_res] in Hst.
+  intros C Hst. unfold step_res in Hst; cbn [step_res_gen] in Hst.
   destruct (in_build s && s_waiting s
             && match p_want (s_plan s) e with Some WToStart => true | _ => false end
             && negb (all_inputs_ready g (s_plan s) e)) eqn:G; [|discriminate].
@@ -2066,7 +2067,7 @@ Qed.
 Lemma core_finish s e code prio s' : core s ->
   step_res g cfg loads s (EvFinish e code prio) = Ok s' -> core s' /\ s_phase s' = PhBuild.
 Proof.
-  intros C Hst. cbn [step_res] in Hst.
+  intros C Hst. unfold step_res in Hst; cbn [step_res_gen] in Hst.
   destruct (in_build s && s_waiting s && memb e (s_running s) && negb (Nat.eqb code exit_interrupted)) eqn:G;
     [|discriminate].
   peel G Gcode. peel G G1. peel G Gwait.
@@ -2170,17 +2171,17 @@ Proof.
     + destruct (core_wait s s1 Hcore E) as [C' P']. split; [intros _; exact C'|apply core_lim; exact C'].
     + destruct (core_prune s e s1 Hcore E) as [C' P']. split; [intros _; exact C'|apply core_lim; exact C'].
     + destruct (core_finish s e code prio s1 Hcore E) as [C' P']. split; [intros _; exact C'|apply core_lim; exact C'].
-    + cbn [step_res] in E. destruct (in_build s && s_waiting s); [|discriminate]. injection E as <-.
+    + unfold step_res in E; cbn [step_res_gen] in E. destruct (in_build s && s_waiting s); [|discriminate]. injection E as <-.
       split; [cbn [s_phase]; discriminate|apply lim_nil; reflexivity].
-    + cbn [step_res] in E. rewrite Eph in E. destruct (s_waiting s); [discriminate|].
+    + unfold step_res in E; cbn [step_res_gen] in E. rewrite Eph in E. destruct (s_waiting s); [discriminate|].
       match type of E with (match ?X with _ => _ end) = _ => destruct X as [[c m']|]; [|discriminate] end.
       destruct (Nat.eqb c code && exit_msg_eqb m m'); [|discriminate]. injection E as <-.
       split; [cbn [s_phase]; discriminate|apply (lim_same_running s); [reflexivity|exact Hlim]].
-  - destruct ev as [e prio| |e|e code prio| |code m]; cbn [step_res] in E; unfold in_build in E; rewrite Eph in E;
+  - destruct ev as [e prio| |e|e code prio| |code m]; unfold step_res in E; cbn [step_res_gen] in E; unfold in_build in E; rewrite Eph in E;
       cbn [andb] in E; try discriminate.
     destruct (Nat.eqb code exit_interrupted && exit_msg_eqb m MInterrupted); [|discriminate]. injection E as <-.
     split; [cbn [s_phase]; discriminate|apply (lim_same_running s); [reflexivity|exact Hlim]].
-  - destruct ev as [e prio| |e|e code prio| |code m]; cbn [step_res] in E; unfold in_build in E; rewrite Eph in E;
+  - destruct ev as [e prio| |e|e code prio| |code m]; unfold step_res in E; cbn [step_res_gen] in E; unfold in_build in E; rewrite Eph in E;
       cbn [andb] in E; discriminate.
 Qed.
 
@@ -2225,7 +2226,7 @@ Lemma step_in_build s ev s' : step g cfg loads s ev = Some s' ->
   (forall c m, ev <> EvExit c m) -> s_phase s = PhBuild.
 Proof.
   intros Hst Hne. unfold step in Hst. destruct (step_res g cfg loads s ev) as [s1| |] eqn:E; try discriminate.
-  destruct ev as [e prio| |e|e code prio| |code m]; cbn [step_res] in E;
+  destruct ev as [e prio| |e|e code prio| |code m]; unfold step_res in E; cbn [step_res_gen] in E;
     try (destruct (in_build s) eqn:Eb; [apply in_build_true; exact Eb|cbn [andb] in E; discriminate]).
   exfalso. apply (Hne code m). reflexivity.
 Qed.
@@ -2240,7 +2241,7 @@ Theorem start_inputs_ready s e prio s' : reachable s -> step g cfg loads s (EvSt
 Proof.
   intros Hr Hst i Hi.
   assert (C : core s) by (apply (core_of_step s _ s' (reachable_sinv s Hr) Hst); intros c m; discriminate).
-  unfold step in Hst. cbn [step_res] in Hst.
+  unfold step in Hst. unfold step_res in Hst; cbn [step_res_gen] in Hst.
   destruct (in_build s && negb (s_waiting s) && more_to_do (s_plan s) && (0 <? s_fa s)
             && (0 <? capacity cfg s) && memb e (p_ready (s_plan s)) && token_ok cfg (s_plan s)) eqn:G;
     [|discriminate].
@@ -2255,7 +2256,7 @@ Theorem start_enabled s e prio :
   length (s_running s) < c_j cfg -> In e (p_ready (s_plan s)) -> token_ok cfg (s_plan s) = true ->
   phony g e = false -> exists s', step g cfg loads s (EvStart e prio) = Some s'.
 Proof.
-  intros H1 H2 H3 H4 H5 H6 H7 H8. unfold step. cbn [step_res].
+  intros H1 H2 H3 H4 H5 H6 H7 H8. unfold step. unfold step_res; cbn [step_res_gen].
   rewrite H1, H2, H3, H7, H8. cbn [negb andb].
   assert (E1 : (0 <? s_fa s) = true) by (apply Nat.ltb_lt; exact H4).
   assert (E2 : (0 <? capacity cfg s) = true) by (apply Nat.ltb_lt; unfold capacity; lia).
@@ -2294,7 +2295,7 @@ Lemma step_failed s ev s' : step g cfg loads s ev = Some s' ->
   exists e c pr, ev = EvFinish e c pr /\ c <> 0 /\ s_failed s' = e :: s_failed s.
 Proof.
   unfold step. destruct (step_res g cfg loads s ev) as [s1| |] eqn:E; try discriminate. intros H. injection H as <-.
-  destruct ev as [e prio| |e|e code prio| |code m]; cbn [step_res] in E.
+  destruct ev as [e prio| |e|e code prio| |code m]; unfold step_res in E; cbn [step_res_gen] in E.
   - match type of E with (if ?X then _ else _) = _ => destruct X; [|discriminate] end.
     destruct (phony g e).
     + match type of E with (match ?X with _ => _ end) = _ => destruct X; try discriminate end.
@@ -2344,7 +2345,7 @@ Proof.
   cbn [accepts] in Hr. destruct (step g cfg loads s1 (EvFinish e c pr)) as [s2|] eqn:E2; [|discriminate].
   assert (Hf2 : In e (s_failed s2)).
   { destruct (step_failed s1 _ s2 E2) as [H|[e' [c' [pr'' [Heq [_ H]]]]]].
-    - exfalso. unfold step in E2. cbn [step_res] in E2.
+    - exfalso. unfold step in E2. unfold step_res in E2; cbn [step_res_gen] in E2.
       match type of E2 with match (if ?X then _ else _) with _ => _ end = _ => destruct X; [|discriminate] end.
       destruct (s_pending s1); [discriminate|]. destruct (Nat.eqb_spec c 0) as [H0|H0]; [contradiction|].
       match type of E2 with match (match ?X with _ => _ end) with _ => _ end = _ => destruct X; try discriminate end.
@@ -2357,7 +2358,7 @@ Proof.
   pose proof (accepts_failed_mono a s2 s3 e E3 Hf2) as Hf3.
   pose proof (sinv_accepts a s2 s3 HI2 E3) as HI3.
   assert (C3 : core s3) by (apply (core_of_step s3 _ s4 HI3 E4); intros c0 m; discriminate).
-  unfold step in E4. cbn [step_res] in E4.
+  unfold step in E4. unfold step_res in E4; cbn [step_res_gen] in E4.
   destruct (in_build s3 && negb (s_waiting s3) && more_to_do (s_plan s3) && (0 <? s_fa s3)
             && (0 <? capacity cfg s3) && memb d (p_ready (s_plan s3)) && token_ok cfg (s_plan s3)) eqn:G;
     [|discriminate].
@@ -2420,7 +2421,7 @@ Lemma exit_build s code m s' : s_phase s = PhBuild -> step g cfg loads s (EvExit
    (more_to_do (s_plan s) = true /\ s_pending s = 0 /\ can_start cfg s = false /\
     code = s_exit s /\ m = fail_msg s)).
 Proof.
-  intros Hph Hst. unfold step in Hst. cbn [step_res] in Hst. rewrite Hph in Hst.
+  intros Hph Hst. unfold step in Hst. unfold step_res in Hst; cbn [step_res_gen] in Hst. rewrite Hph in Hst.
   destruct (s_waiting s); [discriminate|]. split; [reflexivity|].
   destruct (more_to_do (s_plan s)) eqn:Em; cbn [negb] in Hst.
   - destruct (Nat.eqb_spec (s_pending s) 0) as [Hp|Hp]; cbn [andb] in Hst; [|discriminate].
@@ -2438,7 +2439,7 @@ Qed.
 Lemma exit_interrupted_phase s code m s' : s_phase s = PhInterrupted ->
   step g cfg loads s (EvExit code m) = Some s' -> code = exit_interrupted /\ m = MInterrupted.
 Proof.
-  intros Hph Hst. unfold step in Hst. cbn [step_res] in Hst. rewrite Hph in Hst.
+  intros Hph Hst. unfold step in Hst. unfold step_res in Hst; cbn [step_res_gen] in Hst. rewrite Hph in Hst.
   destruct (Nat.eqb_spec code exit_interrupted) as [He|He]; cbn [andb] in Hst; [|discriminate].
   destruct (exit_msg_eqb m MInterrupted) eqn:Em; [|discriminate].
   split; [exact He|apply exit_msg_eqb_eq; exact Em].
@@ -2476,7 +2477,7 @@ Lemma step_exit_code s ev s' : step g cfg loads s ev = Some s' -> s_exit s' = ex
 Proof.
   unfold step. destruct (step_res g cfg loads s ev) as [s1| |] eqn:E; try discriminate. intros H. injection H as <-.
   cbn [exit_track fold_left].
-  destruct ev as [e prio| |e|e code prio| |code m]; cbn [step_res] in E.
+  destruct ev as [e prio| |e|e code prio| |code m]; unfold step_res in E; cbn [step_res_gen] in E.
   - match type of E with (if ?X then _ else _) = _ => destruct X; [|discriminate] end.
     destruct (phony g e).
     + match type of E with (match ?X with _ => _ end) = _ => destruct X; try discriminate end.
@@ -2537,7 +2538,7 @@ Proof.
   destruct Hin as [->|Hin]; [|apply (IH s1 s' e c pr Ha Hin Hc)].
   assert (Hf : In e (s_failed s1)).
   { destruct (step_failed s _ s1 E) as [H|[e' [c' [pr'' [Heq [_ H]]]]]].
-    - exfalso. unfold step in E. cbn [step_res] in E.
+    - exfalso. unfold step in E. unfold step_res in E; cbn [step_res_gen] in E.
       match type of E with match (if ?X then _ else _) with _ => _ end = _ => destruct X; [|discriminate] end.
       destruct (s_pending s); [discriminate|]. destruct (Nat.eqb_spec c 0) as [H0|H0]; [contradiction|].
       match type of E with match (match ?X with _ => _ end) with _ => _ end = _ => destruct X; try discriminate end.
@@ -2569,13 +2570,13 @@ Proof.
       destruct (s_fa s1 <? c_k cfg); discriminate.
   - destruct (exit_interrupted_phase s1 code m s2 Eph E2) as [-> ->].
     split; [unfold exit_interrupted; lia|]. intros H. congruence.
-  - unfold step in E2. cbn [step_res] in E2. rewrite Eph in E2. discriminate.
+  - unfold step in E2. unfold step_res in E2; cbn [step_res_gen] in E2. rewrite Eph in E2. discriminate.
 Qed.
 
 (* once the budget is used up nothing is started *)
 Theorem no_start_without_budget s e prio : s_fa s = 0 -> step g cfg loads s (EvStart e prio) = None.
 Proof.
-  intros H. unfold step. cbn [step_res]. rewrite H. cbn [Nat.ltb Nat.leb].
+  intros H. unfold step. unfold step_res; cbn [step_res_gen]. rewrite H. cbn [Nat.ltb Nat.leb].
   rewrite !andb_false_r. cbn [andb]. reflexivity.
 Qed.
 
@@ -2591,7 +2592,7 @@ Proof.
       rewrite (more_to_do_of_active s x HC Hx) in Hmore. discriminate.
     + rewrite (co_pending s HC) in Hp. destruct (s_running s); [split; reflexivity|discriminate].
   - destruct (exit_interrupted_phase s code m s' Eph Hst) as [_ ->]. congruence.
-  - unfold step in Hst. cbn [step_res] in Hst. rewrite Eph in Hst. discriminate.
+  - unfold step in Hst. unfold step_res in Hst; cbn [step_res_gen] in Hst. rewrite Eph in Hst. discriminate.
 Qed.
 
 (* ------------------------------------------------------------------ C06 *)
@@ -2616,7 +2617,7 @@ Theorem wait_only_when_no_start s s' : step g cfg loads s EvWait = Some s' ->
   can_start cfg s = false /\
   (s_fa s = 0 \/ c_j cfg <= length (s_running s) \/ p_ready (s_plan s) = [] \/ token_ok cfg (s_plan s) = false).
 Proof.
-  unfold step. cbn [step_res].
+  unfold step. unfold step_res; cbn [step_res_gen].
   destruct (in_build s && negb (s_waiting s) && more_to_do (s_plan s) && (0 <? s_pending s)
             && negb (can_start cfg s)) eqn:G; [|discriminate].
   intros _. peel G Gc. apply negb_true_iff in Gc. split; [exact Gc|].
@@ -2684,7 +2685,7 @@ Proof.
       rewrite Hf. reflexivity. }
     unfold more_to_do in Hmore. rewrite Hw0 in Hmore. discriminate.
   - destruct (exit_interrupted_phase s code MStuck s' Eph Hst) as [_ H]. discriminate.
-  - unfold step in Hst. cbn [step_res] in Hst. rewrite Eph in Hst. discriminate.
+  - unfold step in Hst. unfold step_res in Hst; cbn [step_res_gen] in Hst. rewrite Eph in Hst. discriminate.
 Qed.
 
 (* no edge is started twice *)
@@ -2707,7 +2708,7 @@ Lemma step_was_started s ev s' e : core s -> step g cfg loads s ev = Some s' ->
 Proof.
   intros C Hst Hws Hph'. unfold step in Hst.
   destruct (step_res g cfg loads s ev) as [s1| |] eqn:E; try discriminate. injection Hst as <-.
-  destruct ev as [d prio| |d|d code prio| |code m]; cbn [step_res] in E.
+  destruct ev as [d prio| |d|d code prio| |code m]; unfold step_res in E; cbn [step_res_gen] in E.
   - match type of E with (if ?X then _ else _) = _ => destruct X eqn:G; [|discriminate] end.
     peel G G2. peel G G0. apply memb_In in G0.
     pose proof (start_pop_pinv (s_plan s) (s_running s) (s_failed s) d (co_pinv s C) G0) as HP.
@@ -2784,7 +2785,7 @@ Lemma step_phase_stuck s ev s' : step g cfg loads s ev = Some s' -> s_phase s <>
 Proof.
   intros Hst Hph. destruct ev as [d prio| |d|d code prio| |code m];
     try (exfalso; apply Hph; apply (step_in_build s _ s' Hst); intros c m; discriminate).
-  unfold step in Hst. cbn [step_res] in Hst. destruct (s_phase s); [congruence| |discriminate].
+  unfold step in Hst. unfold step_res in Hst; cbn [step_res_gen] in Hst. destruct (s_phase s); [congruence| |discriminate].
   match type of Hst with match (if ?X then _ else _) with _ => _ end = _ => destruct X; [|discriminate] end.
   injection Hst as <-. cbn [s_phase]. discriminate.
 Qed.
@@ -2842,7 +2843,7 @@ Proof.
   pose proof (accepts_was_started a s2 s3 e HI2 Hph2 Hws2 E3 Hph3) as Hws3.
   pose proof (sinv_accepts a s2 s3 HI2 E3) as HI3.
   apply (was_started_not_ready s3 e (proj1 HI3 Hph3) Hws3).
-  unfold step in E4. cbn [step_res] in E4.
+  unfold step in E4. unfold step_res in E4; cbn [step_res_gen] in E4.
   match type of E4 with match (if ?X then _ else _) with _ => _ end = _ => destruct X eqn:G; [|discriminate] end.
   peel G G2. peel G G0. apply memb_In in G0. exact G0.
 Qed.
@@ -2883,7 +2884,7 @@ Proof.
   destruct (s_phase s) eqn:Eph.
   - specialize (HC eq_refl).
     assert (Hsame : s_finished s' = s_finished s /\ s_total s' = s_total s /\ s_started s' = s_started s).
-    { unfold step in Hst. cbn [step_res] in Hst. rewrite Eph in Hst. destruct (s_waiting s); [discriminate|].
+    { unfold step in Hst. unfold step_res in Hst; cbn [step_res_gen] in Hst. rewrite Eph in Hst. destruct (s_waiting s); [discriminate|].
       match type of Hst with match (match ?X with _ => _ end) with _ => _ end = _ => destruct X as [[c m']|]; [|discriminate] end.
       match type of Hst with match (if ?X then _ else _) with _ => _ end = _ => destruct X; [|discriminate] end.
       injection Hst as <-. repeat split. }
@@ -2905,7 +2906,7 @@ Proof.
       * lia.
     + unfold fail_msg in Hm. destruct (Nat.eqb (s_fa s) 0); [discriminate|]. destruct (s_fa s <? c_k cfg); discriminate.
   - destruct (exit_interrupted_phase s 0 MSuccess s' Eph Hst) as [H _]. discriminate.
-  - unfold step in Hst. cbn [step_res] in Hst. rewrite Eph in Hst. discriminate.
+  - unfold step in Hst. unfold step_res in Hst; cbn [step_res_gen] in Hst. rewrite Eph in Hst. discriminate.
 Qed.
 
 (* ------------------------------------------------------------------ fuel is sufficient; Finish is enabled *)
@@ -2957,7 +2958,7 @@ Qed.
 
 Lemma apply_load_not_fuel e p : apply_load g loads e p <> OutOfFuel.
 Proof.
-  unfold apply_load. destruct (bound g p e); [discriminate|]. destruct (loads e) as [L|]; [|discriminate].
+  unfold apply_load, apply_load_gen. destruct (bound g p e); [discriminate|]. destruct (loads e) as [L|]; [|discriminate].
   match goal with |- match ?X with _ => _ end <> _ => destruct X; [|discriminate] end.
   match goal with |- match ?X with _ => _ end <> _ => destruct X; [|discriminate] end.
   match goal with |- match ?X with _ => _ end <> _ => destruct X; [|discriminate] end.
@@ -3046,7 +3047,7 @@ Qed.
 
 Lemma apply_load_nodd e p : no_pending_dyndep -> apply_load g loads e p = Ok (p, []).
 Proof.
-  intros H. unfold apply_load. assert (Hb : bound g p e = []).
+  intros H. unfold apply_load, apply_load_gen. assert (Hb : bound g p e = []).
   { unfold bound. induction (all_edges g) as [|x l IH]; [reflexivity|]. cbn [filter]. rewrite (H x). exact IH. }
   rewrite Hb. reflexivity.
 Qed.
@@ -3109,7 +3110,7 @@ Theorem wait_enabled s : reachable s -> s_phase s = PhBuild -> s_waiting s = fal
   s_running s <> [] -> can_start cfg s = false -> exists s', step g cfg loads s EvWait = Some s'.
 Proof.
   intros Hr Hph Hw Hrun Hcs. destruct (reachable_sinv s Hr) as [HC _]. specialize (HC Hph).
-  unfold step. cbn [step_res]. unfold in_build. rewrite Hph, Hw, Hcs. cbn [negb andb].
+  unfold step. unfold step_res; cbn [step_res_gen]. unfold in_build. rewrite Hph, Hw, Hcs. cbn [negb andb].
   destruct (s_running s) as [|x l] eqn:Er; [congruence|].
   assert (Hx : In x (s_running s ++ s_failed s)) by (rewrite Er; left; reflexivity).
   rewrite (more_to_do_of_active s x HC Hx). rewrite (co_pending s HC), Er. cbn [length Nat.ltb Nat.leb andb].
@@ -3122,7 +3123,7 @@ Theorem finish_enabled s e code prio : no_pending_dyndep ->
   exists s', step g cfg loads s (EvFinish e code prio) = Some s'.
 Proof.
   intros Hnodd Hr Hph Hw Hin Hcode. destruct (reachable_sinv s Hr) as [HC _]. specialize (HC Hph).
-  unfold step. cbn [step_res]. unfold in_build. rewrite Hph, Hw. cbn [andb].
+  unfold step. unfold step_res; cbn [step_res_gen]. unfold in_build. rewrite Hph, Hw. cbn [andb].
   assert (E1 : memb e (s_running s) = true) by (apply memb_In; exact Hin).
   assert (E2 : Nat.eqb code exit_interrupted = false) by (apply Nat.eqb_neq; exact Hcode).
   rewrite E1, E2. cbn [negb andb].
@@ -3146,7 +3147,7 @@ Qed.
 Theorem step_res_fuel_sufficient s ev : reachable s -> step_res g cfg loads s ev <> OutOfFuel.
 Proof.
   intros Hr. destruct (reachable_sinv s Hr) as [HC _].
-  destruct ev as [e prio| |e|e code prio| |code m]; cbn [step_res].
+  destruct ev as [e prio| |e|e code prio| |code m]; unfold step_res; cbn [step_res_gen].
   - match goal with |- (if ?X then _ else _) <> _ => destruct X eqn:G; [|discriminate] end.
     peel G G2. peel G G0. peel G G1. peel G Gfa. peel G Gmore. peel G Gnw.
     apply in_build_true in G. apply memb_In in G0. specialize (HC G).
@@ -3206,7 +3207,7 @@ Proof.
     - intros H. destruct (ev_oready _ _ _ _ Hev i H) as [H1|[H1|[H1|H1]]];
         [left; exact H1|right; left; exact H1|right; right; left; exact H1|right; right; right; exact H1].
     - intros H. apply (ev_nothing _ _ _ _ Hev i H). }
-  destruct ev as [d prio| |d|d code prio| |code m]; cbn [step_res] in E.
+  destruct ev as [d prio| |d|d code prio| |code m]; unfold step_res in E; cbn [step_res_gen] in E.
   - match type of E with (if ?X then _ else _) = _ => destruct X eqn:G; [|discriminate] end.
     peel G G2. peel G G0. apply memb_In in G0.
     pose proof (start_pop_pinv (s_plan s) (s_running s) (s_failed s) d (co_pinv s C) G0) as HP.
@@ -3281,7 +3282,7 @@ Qed.
 
 Lemma exit_plan_same s c m s' : step g cfg loads s (EvExit c m) = Some s' -> s_plan s' = s_plan s.
 Proof.
-  unfold step. cbn [step_res]. destruct (s_phase s).
+  unfold step. unfold step_res; cbn [step_res_gen]. destruct (s_phase s).
   - destruct (s_waiting s); [discriminate|].
     match goal with |- match (match ?X with _ => _ end) with _ => _ end = _ -> _ => destruct X as [[c' m']|]; [|discriminate] end.
     match goal with |- match (if ?X then _ else _) with _ => _ end = _ -> _ => destruct X; [|discriminate] end.
@@ -3461,7 +3462,7 @@ Proof.
   destruct (s_phase s) eqn:Eph.
   - rewrite (tokens_held s Hr Eph), Hrun. destruct (c_jobserver cfg); reflexivity.
   - destruct (exit_interrupted_phase s code m s' Eph Hst) as [_ ->]. congruence.
-  - unfold step in Hst. cbn [step_res] in Hst. rewrite Eph in Hst. discriminate.
+  - unfold step in Hst. unfold step_res in Hst; cbn [step_res_gen] in Hst. rewrite Eph in Hst. discriminate.
 Qed.
 
 Theorem tokens_after_interrupt s s' : reachable s -> step g cfg loads s EvInterrupt = Some s' ->
@@ -3470,7 +3471,7 @@ Proof.
   intros Hr Hst.
   assert (Hph : s_phase s = PhBuild) by (apply (step_in_build s _ s' Hst); intros c m; discriminate).
   pose proof (tokens_held s Hr Hph) as Ht.
-  unfold step in Hst. cbn [step_res] in Hst. destruct (in_build s && s_waiting s); [|discriminate].
+  unfold step in Hst. unfold step_res in Hst; cbn [step_res_gen] in Hst. destruct (in_build s && s_waiting s); [|discriminate].
   injection Hst as <-. cbn [s_plan s_running p_tokens set_tokens]. split; [|reflexivity].
   rewrite Ht. destruct (c_jobserver cfg); lia.
 Qed.
@@ -3483,7 +3484,7 @@ Proof.
   destruct (s_phase s) eqn:Eph.
   - destruct (counters s Hr Eph) as [H1 [H2 [H3 _]]]. rewrite Hrun in H3. cbn [length] in H3. lia.
   - destruct (exit_interrupted_phase s code m s' Eph Hst) as [_ ->]. congruence.
-  - unfold step in Hst. cbn [step_res] in Hst. rewrite Eph in Hst. discriminate.
+  - unfold step in Hst. unfold step_res in Hst; cbn [step_res_gen] in Hst. rewrite Eph in Hst. discriminate.
 Qed.
 
 End Inv.
